@@ -132,6 +132,8 @@ def mutations(rng, b, limit):
         out.append(b[:k])
     pos = list(range(len(b) * 8))
     rng.shuffle(pos)
+    if len(b) <= 40:
+        limit = len(pos)          # small encodings: EVERY single-bit flip (a list of tags ends, a tag changes, a length byte moves)
     for p in pos[:limit]:
         c = list(b)
         c[p // 8] ^= 1 << (p % 8)
@@ -161,7 +163,7 @@ def c20(tier):
         if sites[loc] <= 5:
             rep.violation("panic@%s|%s|%s" % (loc, kind, cj(inp)[:2000]), {"decoder": kind, "input": inp if isinstance(inp, list) else str(inp)[:4000]}, "%s crashed instead of returning an error: %s" % (kind, why[:200]))
     # (1) flat / CBOR decoders on mutations of the specification's encodings
-    sel = cases if tier == "thorough" else cases[::3]
+    sel = cases if tier == "thorough" else [c for i, c in enumerate(cases) if i % 3 == 0 or (c["term"].get("k") == "con" and len(c["flat"]) <= 40)]
     real = []
     for i, c in enumerate(sel):
         real.append({"id": len(real), "mutants": mutations(rng, c["flat"], 24 if tier == "quick" else 120), "mutant_kind": "flat"})
@@ -198,6 +200,20 @@ def c20(tier):
                 tm.append(t[:i] + t[i + 1:])
             else:
                 tm.append(t.replace("builtin ", "builtin x", 1).replace("integer", rng.choice(["integr", "(list", "data", "bool"]), 1))
+    # every integer literal of the texts, rewritten with odd sign runs / shapes (the grammar of numbers is wider than what a big-number parser takes)
+    import re
+    NUMS = ["+-5", "-+5", "--5", "++5", "+-+5", "---5", "+", "-", "5-", "+ 5", "0x5", "5.0", "5e3", "٥", "-0", "+0", "00005", "−5"]
+    nt = 0
+    for t in texts:
+        ms = list(re.finditer(r"(?<![\w.#])-?\d+(?![\w.])", t))
+        for m in ms[:3]:
+            if m.start() < 18:       # the version triple is another rule, covered below
+                continue
+            for v in (NUMS if nt < 400 else NUMS[:4]):
+                tm.append(t[:m.start()] + v + t[m.end():])
+            nt += 1
+    tm += ["(program +1.0.0 (error))", "(program 1.-1.0 (error))", "(program 1.1.0 (constr +1))", "(program 1.1.0 (constr -1))", "(program 1.1.0 (constr 18446744073709551616))",
+           "(program 1.1.0 (con data (I +-5)))", "(program 1.1.0 (con data (Constr +-1 [])))", "(program 1.1.0 (con (list integer) [+-5]))", "(program 1.1.0 (con (pair integer integer) (--1, ++2)))"]
     tm += ["(" * 2000, "[" * 3000 + "]" * 3000, "(program 1.1.0 " + "(delay " * 5000 + "(error)" + ")" * 5000 + ")", "(program 1.1.0 (con integer " + "9" * 5000 + "))",
            "(program 1.1.0 (builtin nope))", "(program 1.1.0 (con (list (list (list integer))) [[[1]]]))", "(program 99999999999999999999.0.0 (error))", ""]
     obs = vlib.run_harness("uplc_text", stdin_lines=[{"id": i, "term": {"k": "err"}, "text": t, "quiet": True} for i, t in enumerate(tm)], timeout=3600)
@@ -272,6 +288,15 @@ def blueprint_json_mutations(rep, rng, tier, crash):
                     cur.pop(p[-1])
             else:
                 cur[p[-1]] = {"null": None, "int": -1, "str": "zz", "list": [], "dict": {}}[mut]
+            docs.append(json.dumps(d))
+    hexish = [(p2, x) for p2, x in walk(bp) if isinstance(x, str) and len(x) >= 8 and all(ch in "0123456789abcdef" for ch in x)]
+    for p2, x in hexish:
+        for v in (x[:-2], x[:-1], x + "00", x + "0", "", "00", x.upper(), x[:len(x) // 2], x + x, "zz" + x[2:], x[:56], x[:64], "00" * 28, "00" * 32):
+            d = copy.deepcopy(bp)
+            cur = d
+            for k in p2[:-1]:
+                cur = cur[k]
+            cur[p2[-1]] = v
             docs.append(json.dumps(d))
     docs += ["", "{", "[]", "null", '{"preamble":{}}', json.dumps(bp)[:-5], json.dumps(bp).replace("compiledCode", "compiledcode"), json.dumps(bp).replace('"hash":"', '"hash":"zz')]
     res = vlib.run_harness_stream("json_ops", [{"id": i, "kind": "blueprint", "text": t} for i, t in enumerate(docs)], per_case_timeout=20, confirm_timeout=100)
